@@ -317,10 +317,13 @@ def validate_trace(ctx, module, cfg, trace_path, timeout=900, heap=None, extra_f
 
 
 def _numeric_leaves(obj, path=()):
-    """Paths of the integer leaves of a JSON value (booleans excluded), depth first."""
+    """Paths of the leaves of a JSON value that can be corrupted: integers (+1), booleans (flipped), short strings ('~' appended)."""
     if isinstance(obj, bool):
-        return
-    if isinstance(obj, int):
+        yield path
+    elif isinstance(obj, str):
+        if len(obj) < 200:
+            yield path
+    elif isinstance(obj, int):
         yield path
     elif isinstance(obj, list):
         for i, v in enumerate(obj):
@@ -347,7 +350,7 @@ def binding_selftest(ctx, module, cfg, trace_path, ef, timeout, heap, workers, d
     pairs = []
     for i, e in enumerate(events):
         for pth in _numeric_leaves(e):
-            if pth and pth[0] not in ("scen", "ev", "i", "k", "line", "census", "ms"):
+            if pth and pth[0] not in ("scen", "ev", "i", "k", "line", "census", "ms", "origin", "where", "msg", "what", "snap", "got", "err", "finalstoperr", "kind"):
                 pairs.append((i, pth))
     rng.shuffle(pairs)
     tried, outcome = [], None
@@ -370,7 +373,8 @@ def binding_selftest(ctx, module, cfg, trace_path, ef, timeout, heap, workers, d
         o = ev2[i]
         for key in pth[:-1]:
             o = o[key]
-        o[pth[-1]] = o[pth[-1]] + 1
+        v0 = o[pth[-1]]
+        o[pth[-1]] = (not v0) if isinstance(v0, bool) else (v0 + "~") if isinstance(v0, str) else v0 + 1
         r, nv = run_on(ev2, str(len(tried)))
         desc = {"event": i + 1, "ev": events[i].get("ev"), "field": "/".join(map(str, pth)), "objections": nv - base, "tlc_ok": bool(r.ok)}
         tried.append(desc)
